@@ -39,7 +39,8 @@ def shards(tier, seed):
 def run(prog, cache):
     functions = env.mods()[0]
     try:
-        _, stack, c = functions.run_script(prog, cache)
+        _, stack, c = functions.run_script(prog, cache,
+                                           **env.roomy_limits(prog))
         return list(stack.deque), None
     except BaseException as e:
         return None, e
